@@ -120,6 +120,28 @@ RES = {
  "C19-E": ("C19", "caught by quick C19 (scan:mismatch, lsm:level-seq); it is the same change as C06-E, found independently", ""),
  "C19-F": ("C19", "caught by quick C19 (get:has-mismatch, panic:leveldb.internalKey.assert) and quick C16", "missed at first: needs one Options value used for two sessions; the harness now keeps using one Options value while the settings are unchanged (as applications do), and 25% of C19 cases change the filter policy (old one in AltFilters) right before the shutdown that precedes Recover"),
 
+ # ---- round 4 (variants G, H; asked for coincidences of two conditions, rarely used calls, long histories) ----
+ "C01-G": ("C01", "caught by quick C08 (get:mismatch, scan:mismatch); it is the same change as C08-E. Not reported by C01's own check: it needs a failed and retried compaction, and C01's programs are fault-free like the property's quantifier", ""),
+ "C01-H": ("C01", "caught by quick C01 (get:has-mismatch, get:mismatch)", "missed at first: needs tables written under one filter policy and read under another that lists the first in AltFilters; every DB-level program now passes the previous policy in AltFilters when a reopen changes it (60%), and the hash-set policy is part of the general option vector"),
+ "C02-G": ("C02", "caught by quick C02 (iter:mismatch); same change as C05-E and C04-G", ""),
+ "C02-H": ("C02", "caught by quick C08 (get:mismatch, scan:mismatch); it is the same change as C08-E / C01-G. Not reported by C02's own check, whose programs are fault-free", ""),
+ "C03-G": ("C03", "caught by quick C03 (snapget:has-mismatch, snapget:mismatch); same change as C16-F", ""),
+ "C03-H": ("C03", "caught by quick C03 (txiter:mismatch); same change as C02-D", "missed at first: C03 programs had no transactions; they have now (with iterators that outlive the transaction), which also exposed a genuine defect on the unchanged tree (fix a8158c3)"),
+ "C04-G": ("C04", "caught by quick C04 (scan:mismatch, get:has-mismatch); same change as C05-E", ""),
+ "C04-H": ("C04", "caught by quick C04 (open-failed)", "missed at first: needs a manifest record that crosses a 32 KiB block boundary and is torn by the crash; 6% of C04 cases now use keys of several KiB with crash points biased to manifest writes, which also exposed a genuine defect on the unchanged tree (fix 0fb4c47)"),
+ "C05-G": ("C05", "caught by quick C05 (lin:not-linearizable, panic:leveldb.(*DB).rotateMem)", ""),
+ "C05-H": ("C05", "caught by quick C05 (txiter:own-writes); same change as C02-D", "missed at first: concurrent C05 programs kept transaction bodies to writes; 40% of their transactions now create an iterator half-way through a body that outgrows the write buffer and require it to keep showing the transaction's earlier writes"),
+ "C06-G": ("C06", "caught by quick C06 (lsm:level-seq, lsm:overlap); same change as C07-C", ""),
+ "C06-H": ("C06", "caught by quick C06 (lsm:level-seq, lsm:manifest-undecodable); same change as C11-F", ""),
+ "C07-G": ("C07", "caught by quick C07 (files-residue:extra:table)", "missed at first: needs a failed version commit followed by successful ones; 40% of the table-fault cases of C07 now also fail manifest writes/syncs, and after the faults have stopped they write, compact and only then run the settle check"),
+ "C07-H": ("C07", "caught by quick C07 (files-residue:extra:table)", "missed at first: needs SizeOf to fail while opening a table; C07 programs now call Stats/GetProperty/SizeOf (with bounds that lie inside tables), and the table-fault variant also fails opens and reads"),
+ "C08-G": ("C08", "caught by quick C08 (get:mismatch, txget:has-mismatch)", "missed at first: needs a discarded transaction whose table was read (blocks cached) and whose file cannot be removed; added the discard-under-remove-faults variant (10% of C08 fault cases)"),
+ "C08-H": ("C08", "caught by quick C08 (iter:mismatch, txiter:mismatch)", ""),
+ "C09-G": ("C09", "caught by quick C09 (hang:db_write.go:DB.putRec, hang:DB.OpenTransaction); same change as C18-C and C10-F", ""),
+ "C09-H": ("C09", "caught by quick C09 (hang:mutex.wait<db_transaction.go:Transaction.Commit, hang:wg.waiting<db.go:DB.Close)", ""),
+ "C10-G": ("C10", "caught by quick C10 (hang:DB.OpenTransaction, hang:DB.Write/putRec); same change as C09-C", ""),
+ "C10-H": ("C10", "caught by quick C10 (hang:db_write.go:DB.putRec, wgroup:ack-before-log); same change as C09-A", "missed at first: needs a journal write failure among concurrent writers; 12% of C10 cases now inject journal write/sync failures, which also exposed a genuine defect on the unchanged tree (fix 8e73cda)"),
+
 }
 os.makedirs("/verif/seeded", exist_ok=True)
 rows = []
@@ -129,6 +151,8 @@ for name, (prop, caught, note) in sorted(RES.items()):
         src = "/tmp/mut/out2/" + name
     if not os.path.exists(src + "/patch.diff"):
         src = "/tmp/mut/out3/" + name
+    if not os.path.exists(src + "/patch.diff"):
+        src = "/tmp/mut/out4/" + name
     if os.path.exists("/verif/seeded/" + name + "/patch.diff") and not os.path.exists(src + "/patch.diff"):
         rows_keep = json.load(open("/verif/seeded/" + name + "/meta.json"))
         rows.append((name, prop, rows_keep.get("result", caught), rows_keep.get("strengthening", note)))
